@@ -1321,7 +1321,9 @@ class TangentVector(PointPair):
         v2 = project_to_hyperboloid(self.point, other.normalized().vector)
 
         product = utils.apply_bilinear(v1, v2, self.minkowski)
-        return np.arccos(product)
+
+        # rounding can leave |<v1,v2>| slightly above 1 for (anti)parallel vectors
+        return np.arccos(np.minimum(np.maximum(product, -1), 1))
 
     def point_along(self, distance):
         """Get a point in hyperbolic space along the geodesic specified by
